@@ -33,7 +33,7 @@ def variables(draw, max_vars=4, allow_qe=True):
     out = []
     for a in args:
         scalar = draw(st.booleans())
-        n = 1 if scalar else draw(st.integers(2, 4))
+        n = 1 if scalar else draw(st.sampled_from([1, 2, 2, 3, 4]))  # (a vector of exactly one placeholder is still a vector)
         log = draw(st.booleans())
 
         def pair():
